@@ -95,6 +95,37 @@ Example C15_parse_error_nonvacuous :
             pe_expected e <> [].
 Proof. eexists. vm_compute. repeat split. discriminate. Qed.
 
+(* on a well-formed token stream (what the lexer delivers, C14) no panic site of the
+   parser is reachable: `rem_tokens.next().unwrap()` (EOF is never consumed), the
+   assert of eat_eof, from_token_kind's unreachable!, the unwraps after the peeks, the
+   panics of make_comp and make_surrounding_span's `start <= end` assert *)
+Theorem C15_parse_no_panic : forall T fuel toks,
+  wf_tokens toks -> forall site, parse_fuel T fuel toks <> Panic site.
+Proof. exact parse_no_panic. Qed.
+
+(* every node's span is ordered and lies inside its parent's span (sub-expressions,
+   identifiers and the auxiliary spans stored in nodes alike); the root lies between
+   the first token's start and the EOF token *)
+Theorem C15_span_nesting : forall T fuel toks e d,
+  wf_tokens toks -> parse_fuel T fuel toks = Ok (e, d) ->
+  within (fst (tok_span (hd tok0 toks))) (fst (tok_span (last toks tok0))) e.
+Proof. exact span_nesting. Qed.
+
+Theorem C15_parse_root_span_in_range : forall T fuel toks e d,
+  wf_tokens toks -> parse_fuel T fuel toks = Ok (e, d) ->
+  fst (tok_span (hd tok0 toks)) <= fst (expr_span e) /\
+  fst (expr_span e) <= snd (expr_span e) /\
+  snd (expr_span e) <= fst (tok_span (last toks tok0)).
+Proof. exact parse_root_span_in_range. Qed.
+
+(* non-vacuity: `a + b * [c]` and `a + ]` with realistic spans are well-formed streams;
+   the first parses (root span = whole text), the second is rejected at `]` *)
+Example C15_wf_nonvacuous :
+  wf_tokens ex_toks /\ wf_tokens ex_bad /\
+  (exists e d, parse spec_prec ex_toks = Ok (e, d) /\ expr_span e = (0, 11)) /\
+  (exists e, parse spec_prec ex_bad = Err e /\ pe_span e = (4, 5)).
+Proof. split; [exact (proj1 ex_toks_wf)|]. split; [exact (proj2 ex_toks_wf)|]. split; [exact ex_toks_ok | exact ex_bad_err]. Qed.
+
 (* the full round-trip statement (DESIGN §5): not proved for unbounded trees in this
    round; it is exercised on every run through the extracted printer+parser (K, `rt`) *)
 Definition C15_goal : Prop := forall e, Print.wp e = true ->
@@ -114,3 +145,7 @@ Print Assumptions C15_left_assoc_partial.
 Print Assumptions C15_native_depth_unbounded.
 Print Assumptions C15_parse_error_at_token.
 Print Assumptions C15_parse_error_nonvacuous.
+Print Assumptions C15_parse_no_panic.
+Print Assumptions C15_span_nesting.
+Print Assumptions C15_parse_root_span_in_range.
+Print Assumptions C15_wf_nonvacuous.
